@@ -235,11 +235,11 @@ func vLongToken(kind int, L int) string {
 	case 7: // back-tick word
 		return "`" + vRun("ac", L) + "`"
 	case 8: // hex literal
-		return "0x" + vRun("09afAF", L)
+		return "0x" + vRun("0a", L)
 	case 9: // money
-		return "$" + vRun("0123456789.,", L)
+		return "$" + vRun("09", L)
 	case 10: // x'..' hex string
-		return "x'" + vRun("09afAF", L) + "'"
+		return "x'" + vRun("0a", L) + "'"
 	case 11: // unterminated string
 		return "'" + vRun("ac", L)
 	case 12: // hash comment
